@@ -11,6 +11,9 @@ pub enum RngKind {
     Native64,
     /// 32-bit native generator; next_u64 is composed of two 32-bit outputs
     Native32,
+    /// 64-bit generator that often returns extreme words (0, u64::MAX, 1, 2^63):
+    /// x-space coordinates exactly 0 or 1-2^-53 are legal draws
+    Extreme64,
 }
 
 #[derive(Clone, Debug)]
@@ -38,6 +41,16 @@ impl SimRng {
         match self.kind {
             RngKind::Native64 => self.core.next(),
             RngKind::Native32 => self.core.next() >> 32,
+            RngKind::Extreme64 => {
+                let w = self.core.next();
+                match w % 8 {
+                    0 => 0,
+                    1 => u64::MAX,
+                    2 => 1 << 11,
+                    3 => 1 << 63,
+                    _ => self.core.next(),
+                }
+            }
         }
     }
     fn note(&self, which: u64, v: u64) {
@@ -57,7 +70,7 @@ impl RngCore for SimRng {
     fn next_u64(&mut self) -> u64 {
         self.calls[1] += 1;
         let v = match self.kind {
-            RngKind::Native64 => self.native(),
+            RngKind::Native64 | RngKind::Extreme64 => self.native(),
             RngKind::Native32 => {
                 let lo = self.native();
                 let hi = self.native();
@@ -71,7 +84,7 @@ impl RngCore for SimRng {
         self.calls[2] += 1;
         for chunk in dest.chunks_mut(8) {
             let v = match self.kind {
-                RngKind::Native64 => self.native(),
+                RngKind::Native64 | RngKind::Extreme64 => self.native(),
                 RngKind::Native32 => {
                     let lo = self.native();
                     let hi = self.native();
